@@ -450,7 +450,7 @@ def parse_models(repo):
 
 
 # ------------------------------------------------------------------ constants
-def parse_consts(repo):
+def parse_opcodes(repo):
     c = {}
     # opcodes
     dcs_src = open(os.path.join(repo, "src", "dcs.rs")).read()
@@ -524,6 +524,28 @@ def parse_consts(repo):
                 i = be
             i += 1
     c["typed"] = typed
+    return c
+
+
+def _const_of(repo, path, name):
+    src = open(os.path.join(repo, path)).read()
+    m = re.search(r"const\s+" + name + r"\s*:\s*\w+\s*=\s*([0-9_xXa-fA-F]+)\s*;", src)
+    if not m:
+        raise TranslateError(f"{path}: constant {name} not found as a literal")
+    return num(m.group(1))
+
+
+def parse_capacities(repo):
+    c = {}
+    bpath = os.path.join("src", "batch.rs")
+    if os.path.exists(os.path.join(repo, bpath)):
+        c["MAX_ROW_SIZE"] = _const_of(repo, bpath, "MAX_ROW_SIZE")
+        c["MAX_BLOCK_SIZE"] = _const_of(repo, bpath, "MAX_BLOCK_SIZE")
+    return c
+
+
+def parse_test_image(repo):
+    c = {}
 
     def const_of(path, name):
         src = open(os.path.join(repo, path)).read()
@@ -532,10 +554,6 @@ def parse_consts(repo):
             raise TranslateError(f"{path}: constant {name} not found as a literal")
         return num(m.group(1))
 
-    bpath = os.path.join("src", "batch.rs")
-    if os.path.exists(os.path.join(repo, bpath)):
-        c["MAX_ROW_SIZE"] = const_of(bpath, "MAX_ROW_SIZE")
-        c["MAX_BLOCK_SIZE"] = const_of(bpath, "MAX_BLOCK_SIZE")
     tpath = os.path.join("src", "test_image.rs")
     for n in ("BORDER_WIDTH", "BORDER_PADDING", "TOP_LEFT_MARKER_SIZE"):
         c[n] = const_of(tpath, n)
@@ -548,6 +566,17 @@ def parse_consts(repo):
         vals = [num(x) for x in re.findall(r"[0-9][0-9_xXa-fA-F]*", body)]
         c["GLYPH_" + g] = vals
     return c
+
+
+def parse_consts(repo):
+    c = {}
+    c.update(parse_opcodes(repo))
+    c.update(parse_capacities(repo))
+    c.update(parse_test_image(repo))
+    return c
+
+
+PARTS = {"models": None, "opcodes": parse_opcodes, "capacities": parse_capacities, "test_image": parse_test_image}
 
 
 # ------------------------------------------------------------------ Coq printers
@@ -586,9 +615,28 @@ def coq_stmt(s):
     raise TranslateError(f"cannot print {s}")
 
 
-def emit(repo, outdir):
-    models = parse_models(repo)
-    consts = parse_consts(repo)
+def emit(repo, outdir, baseline=None, failed=None):
+    """translate `repo` into outdir/{Models,Consts}.v. Each part (models, opcodes, capacities, test_image) fails
+    closed on its own; with `baseline` (a source snapshot that translates) a failed part is taken from there and
+    recorded in the dict `failed` (part -> error text). Without `baseline` any failure raises."""
+    def part(name, fn):
+        try:
+            return fn(repo)
+        except TranslateError as e:
+            if baseline is None or failed is None:
+                raise
+            failed[name] = str(e)
+            return fn(baseline)
+        except Exception as e:  # anything unexpected in a parser is a translation failure too
+            if baseline is None or failed is None:
+                raise TranslateError("translator crashed in part %s: %r" % (name, e))
+            failed[name] = "translator crashed: %r" % (e,)
+            return fn(baseline)
+    models = part("models", parse_models)
+    consts = {}
+    consts.update(part("opcodes", parse_opcodes))
+    consts.update(part("capacities", parse_capacities))
+    consts.update(part("test_image", parse_test_image))
     os.makedirs(outdir, exist_ok=True)
     L = []
     L.append("(* GENERATED by tools/rs2v.py from src/models/*.rs — do not edit. *)")
